@@ -120,6 +120,20 @@ while True:
 '''
 
 
+def _canon_handler_names(node):
+    """copy of `node` with every `except X as <name>` variable renamed to `e`"""
+    node = copy.deepcopy(node)
+    for h in [n for n in ast.walk(node) if isinstance(n, ast.ExceptHandler) and n.name]:
+        old = h.name
+        if any(isinstance(n, ast.Name) and n.id == 'e' for n in ast.walk(h)) and old != 'e':
+            continue                      # would capture another `e`: leave it, the shape check fails
+        for n in ast.walk(h):
+            if isinstance(n, ast.Name) and n.id == old:
+                n.id = 'e'
+        h.name = 'e'
+    return node
+
+
 def _ret_name(name):
     return ast.Return(value=ast.Name(id=name, ctx=ast.Load()))
 
@@ -164,7 +178,7 @@ def fork_poll_and_wait(repo):
     whiles = [n for n in ast.walk(poll) if isinstance(n, ast.While)]
     if len(whiles) != 1 or len(holders) != 1:
         raise TranslateError('popen_fork.Popen.poll: expected exactly one while loop')
-    _same(whiles[0], WAITPID_LOOP, 'popen_fork.Popen.poll waitpid loop')
+    _same(_canon_handler_names(whiles[0]), WAITPID_LOOP, 'popen_fork.Popen.poll waitpid loop')
     holder = holders[0]
     idx = holder.body.index(whiles[0])
     # nothing before the loop inside its block may look at pid/sts; after removal the
@@ -313,6 +327,40 @@ def exit_mechanics(repo):
         raise TranslateError('forkserver.UNSIGNED_STRUCT is no longer struct.Struct(\'Q\')')
 
 
+CLEANUP = '''
+def _cleanup():
+    for p in list(_children):
+        if p._popen.poll() is not None:
+            _children.discard(p)
+'''
+
+ACTIVE_CHILDREN = '''
+def active_children(_cleanup=_cleanup):
+    try:
+        _cleanup()
+    except TypeError:
+        return []
+    return list(_children)
+'''
+
+
+def _strip_doc(fn):
+    fn = copy.deepcopy(fn)
+    if fn.body and isinstance(fn.body[0], ast.Expr) and isinstance(fn.body[0].value, ast.Constant) \
+            and isinstance(fn.body[0].value.value, str):
+        fn.body = fn.body[1:]
+    return fn
+
+
+def children_set_shapes(repo):
+    """process._cleanup / active_children are modelled by hand (a loop over a set):
+    their shape is pinned, their behaviour is covered by the correspondence"""
+    tree = _parse(repo, 'billiard/process.py')
+    _same(_strip_doc(pykernel.find_func(tree, '_cleanup')), CLEANUP, 'process._cleanup')
+    _same(_strip_doc(pykernel.find_func(tree, 'active_children')), ACTIVE_CHILDREN,
+          'process.active_children')
+
+
 def human_status_parts(repo):
     tree = _parse(repo, 'billiard/common.py')
     fn = pykernel.find_func(tree, 'human_status')
@@ -405,6 +453,7 @@ def synthetic_module(repo):
     fs = forkserver_poll(repo)
     sysexit, return_fn, raise_fn = bootstrap_codes(repo)
     exit_mechanics(repo)
+    children_set_shapes(repo)
     h1, h2, h3 = human_status_parts(repo)
     mod = ast.Module(body=[poll_ans, wait_fn, fs, sysexit, return_fn, raise_fn, h1, h2, h3],
                      type_ignores=[])
